@@ -9,9 +9,16 @@
          are pairwise distinct within the cycle, a CBF-buffered packet is sent at most once and never after a
          completed cancellation, every position vector read was current, every buffered unicast request is in
          exactly one batch (flushed after the reply / dropped after the final retry), in request order.
-   Not mechanised: the reduction from (2) to (3) (critical sections of a well-locked program behave atomically
-   with respect to the fields they protect) and CPython's actual switch points; see DESIGN.md section 7. *)
-From FlexVerif Require Import Base.Prelude Base.Interleave Model.Wire Model.LocT Model.Conc Gen.LockSummary Proofs.ConcProofs.
+     (4) the reduction from (2) towards (3), in a memory semantics where a write stores an ARBITRARY function of
+         everything its thread has read: for the locks all of whose sections are closed (they only touch fields
+         written under that lock: sequence number, ego position vector, location table, per-entry fields) a
+         critical section computes exactly what its body computes running alone from the memory at its start,
+         whatever the other threads do meanwhile (C15_sections_atomic); for every lock, steps of other threads
+         never change a field written under a lock somebody holds (C15_section_isolation).
+   Not mechanised: the sections of _cbf_lock and _ls_lock also read the location table under the nested
+   loc_t_lock, so (4) gives them isolation only; the correspondence between a source line and the abstract
+   Rd/Wr actions of the summary; CPython's actual switch points; see DESIGN.md section 7. *)
+From FlexVerif Require Import Base.Prelude Base.Interleave Base.Atomic Model.Wire Model.LocT Model.Conc Gen.LockSummary Proofs.ConcProofs Proofs.AtomicRouter.
 
 Theorem C15_summary_names : 
   (L_sequence_number_lock, L_cbf_lock, L_ls_lock, L_ego_position_vector_lock, L_loc_t_lock,
@@ -109,3 +116,27 @@ Example C15_example :
   snd (cbf_run [] [CBuf [1] [9]; CTimeout [1]; CTimeout [1]; CBuf [2] [8]; CCancel [2]; CTimeout [2]]) =
     [None; Some [9]; None; None; None; None].
 Proof. vm_compute. split; reflexivity. Qed.
+
+(* ---- (4) critical sections are atomic ---- *)
+Theorem C15_closed_sections :
+  forallb (fun l => forallb (all_sections_closed router_policy l) summary) router_closed_locks = true.
+Proof. exact router_closed_sections. Qed.
+Print Assumptions C15_closed_sections.
+
+Theorem C15_sections_atomic : forall (wv : Z -> list Z -> Z) progs m0 s1 s2 i t1 t2 l m pre r tail ls1 ls2,
+  from_summary progs -> In l router_closed_locks -> In m summary -> m = pre ++ Acq l :: r ->
+  msteps wv (minit progs m0) s1 -> msteps wv s1 s2 ->
+  nth_error (m_cfg s1) i = Some t1 -> t_prog t1 = r ++ tail -> nth_error (m_loc s1) i = Some ls1 ->
+  exists body rest, r = body ++ Rel l :: rest /\ closed router_policy l [] body = true /\
+    (nth_error (m_cfg s2) i = Some t2 -> t_prog t2 = Rel l :: rest ++ tail -> nth_error (m_loc s2) i = Some ls2 ->
+     agree router_policy l (m_mem s2) (fst (run_seq wv body (m_mem s1) ls1)) /\ ls2 = snd (run_seq wv body (m_mem s1) ls1)).
+Proof. exact router_sections_atomic. Qed.
+Print Assumptions C15_sections_atomic.
+
+Theorem C15_section_isolation : forall (wv : Z -> list Z -> Z) progs s i ti j tj a r ls l,
+  from_summary progs -> reachable (initial progs) (m_cfg s) ->
+  nth_error (m_cfg s) i = Some ti -> holds ti l = true ->
+  nth_error (m_cfg s) j = Some tj -> j <> i -> t_prog tj = a :: r ->
+  agree router_policy l (m_mem s) (fst (act_mem wv a (m_mem s) ls)).
+Proof. exact router_section_isolation. Qed.
+Print Assumptions C15_section_isolation.
